@@ -213,6 +213,18 @@ def PathParse(inp, tab, ev):
 
 
 @act
+def PathProps(inp, tab, ev):
+    from btc_hd_wallet.wallet_utils import Bip32Path, Bip
+
+    def go():
+        p = Bip32Path.parse(untext(inp))
+        return {"bip44": bool(p.bip44), "bip49": bool(p.bip49), "bip84": bool(p.bip84), "mainnet": bool(p.bitcoin_mainnet),
+                "testnet": bool(p.bitcoin_testnet), "external": bool(p.external_chain), "bip": int(Bip(p.bip()).name[3:]), "mark": T(p.m)}
+    ok, v = call(go)
+    ev["res"] = res_of(ok, v)
+
+
+@act
 def ByPath(inp, tab, ev):
     s = untext(inp["path"])
     w = fixed_wallet(inp["wallet"])
